@@ -471,6 +471,13 @@ class Extractor:
 
         apply(find_err, build_err)
 
+        # R2 (cont.): `.map_err(|_| FluteError::stub())` -> `.map_err_stub()` (Verus rejects `_` closure parameters)
+        def find_maperr(masked, pos):
+            m = re.compile(r"\.map_err\(\s*\|\s*\w*\s*\|\s*FluteError::stub\(\)\s*\)").search(masked, pos)
+            return (m.start(), m.end()) if m else None
+
+        apply(find_maperr, lambda t, m: (self._count(rec, "R2"), ".map_err_stub()")[1])
+
         # R4: assert! / debug_assert!
         def find_assert(masked, pos):
             m = re.compile(r"\b(debug_assert|assert)!\s*\(").search(masked, pos)
